@@ -203,3 +203,37 @@ Proof. intros X [|a [|b l]] i H; simpl in *; try reflexivity. lia. Qed.
 
 Lemma nth_error_map' : forall X Y (g : X -> Y) l i, nth_error (map g l) i = option_map g (nth_error l i).
 Proof. induction l as [|a l IH]; intros [|i]; simpl; auto. Qed.
+
+(* ------------------------------------------------------------------ histories
+   An object is its current list of values: the list mutators of SMUserList change that list and nothing else, and every
+   helper / accessor above is a function of the CURRENT list.  (The mutators themselves are property C10's subject; here
+   only their effect on the data list matters.)  props/C09.py ties this to the implementation with history cells:
+   evaluate, mutate, evaluate again, compare with a fresh object holding the current values. *)
+Inductive mutation (A : Type) :=
+  | MAppend (a : A) | MExtend (l : list A) | MInsert (i : nat) (a : A) | MPopLast | MPop (i : nat)
+  | MReverse | MDel (i : nat) | MSet (i : nat) (a : A).
+Arguments MPopLast {A}.
+Arguments MPop {A} i.
+Arguments MReverse {A}.
+Arguments MDel {A} i.
+
+Fixpoint set_nth {A} (i : nat) (a : A) (l : list A) : list A :=
+  match l, i with
+  | [], _ => []
+  | _ :: t, 0 => a :: t
+  | h :: t, S i' => h :: set_nth i' a t
+  end.
+
+Definition apply_mutation {A} (m : mutation A) (l : list A) : list A :=
+  match m with
+  | MAppend a => l ++ [a]
+  | MExtend e => l ++ e
+  | MInsert i a => firstn i l ++ a :: skipn i l
+  | MPopLast => removelast l
+  | MPop i | MDel i => firstn i l ++ skipn (S i) l
+  | MReverse => rev l
+  | MSet i a => set_nth i a l
+  end.
+
+Definition run_history {A} (h : list (mutation A)) (l : list A) : list A :=
+  fold_left (fun acc m => apply_mutation m acc) h l.
